@@ -1289,6 +1289,28 @@ def fam_args(rng, n, dist):
     return out
 
 
+def fam_bursts(rng, n, dist):
+    """long reply lines (which make the receive buffer grow to its full 8192 bytes) with further replies right behind them
+    in the same burst - through the real sockets: a preliminary reply of 3700 .. 8191 bytes written together with a long
+    completion reply, a long 120 greeting with the 220 behind it"""
+    out = []
+    totals = [3700, 5000, 8000, 8189, 8190, 8191]
+    for i in range(n):
+        total = totals[i % len(totals)]
+        tls = (i % 4 == 3)
+        b = S.Builder(rng, *ALL_METHODS[i % 4], type="I", tls=tls, resume=False, tlsver="12") if tls else S.Builder(rng, *ALL_METHODS[i % 4], type="I")
+        b.connect(login=(b"u", b"p"))
+        pad = "x" * (total - 2 - len("150  [m%d]" % (b.mark + 2)))      # the line, CR LF included, is `total` bytes long
+        kind = rng.choice(["D", "F"])
+        b.transfer(kind, b"f" if kind == "D" else None, payload_segs=[b"data\r\n"], completion="now", cmd_code=150,
+                   pre_words=pad, done_words="y" * rng.choice([100, 2500, 4000, 8000]))
+        dist.add("bursts:preliminary-reply-of-%d-bytes-with-the-completion-behind%s" % (total, ":tls" if tls else ""))
+        b.simple(b"NOOP", None, 200)
+        b.disconnect(True)
+        out.append(b.scenario())
+    return out
+
+
 def fam_greetings(rng, n, dist):
     """the aggregates the calls of a session return: every reply that arrived in the call, in order - connect() with greetings
     of one and two replies (220; 120 + 220; 120 + a refusal; a refusal), with and without a login, then a few operations"""
@@ -1908,7 +1930,7 @@ def fam_dispatch(rng, n, dist):
 
 ORACLES.update(tls=oracle_tls, reuse=oracle_reuse, endpoints=oracle_endpoints, aggregates=oracle_aggregates)
 
-FAMILIES = dict(greetings=lambda r, n, d, th: fam_greetings(r, n, d), linelen=lambda r, n, d, th: fam_linelen(r, n, d), tlsplain=lambda r, n, d, th: fam_tlsplain(r, n, d), mixed=lambda rng, n, dist, th: gen_mixed(rng, "quick", dist, n), observers=lambda r, n, d, th: fam_observers(r, n, d),
+FAMILIES = dict(bursts=lambda r, n, d, th: fam_bursts(r, n, d), greetings=lambda r, n, d, th: fam_greetings(r, n, d), linelen=lambda r, n, d, th: fam_linelen(r, n, d), tlsplain=lambda r, n, d, th: fam_tlsplain(r, n, d), mixed=lambda rng, n, dist, th: gen_mixed(rng, "quick", dist, n), observers=lambda r, n, d, th: fam_observers(r, n, d),
                 abor=lambda r, n, d, th: fam_abor(r, n, d), downloads=fam_downloads, uploads=fam_uploads, ascii=fam_ascii, faults=fam_faults,
                 refusals=lambda r, n, d, th: fam_refusals(r, n, d), cancel=lambda r, n, d, th: fam_cancel(r, n, d),
                 args=lambda r, n, d, th: fam_args(r, n, d), tls=lambda r, n, d, th: fam_tls(r, n, d),
@@ -1931,6 +1953,7 @@ PROPS = {
     "C13": dict(fam=[("reconnect", 6), ("tls", 1)], proj=["out", "state", "held", "wire"], oracles=["state", "sockets", "lockstep", "tls"], n=(120, 600)),
     "C18": dict(fam=[("reuse", 1)], proj=["out", "wire"], oracles=["reuse"], n=(60, 300)),
     "C08": dict(fam=[("faults", 6), ("tlsplain", 1)], proj=["out", "state"], oracles=["terminates"], n=(120, 600), variant="asan"),
+    "C01": dict(fam=[("bursts", 1)], proj=["out"], oracles=["lockstep"], n=(24, 96)),
     "C15": dict(fam=[("greetings", 1)], proj=["out"], oracles=["lockstep", "aggregates"], n=(48, 240)),
     "C05": dict(fam=[("ascii", 1)], proj=["out", "io"], oracles=["transfers"], n=(60, 300)),
     "C06": dict(fam=[("dispatch", 5), ("tls", 1)], proj=["out", "wire", "held"], oracles=["endpoints", "commands"], n=(160, 800)),
